@@ -1,20 +1,22 @@
 (* Props_C01.v — property theorems for C01 (only statements closed by [exact]). *)
 From Coq Require Import List String Bool.
 Import ListNotations.
-From HolpyV Require Import Kernel Sem SemLemmas Sound.
+From HolpyV Require Import Kernel Sem SemLemmas TyMatch Sound SoundSubst.
 
 (* Soundness of the primitive rules, one theorem per rule: in every standard
    model (every assignment of finite domains to type variables, every valuation
    of variables and schematic variables), if the premises are well-typed and
    valid and the result passes the checker's typing gate, the result is valid.
-   Proved for 14 of the 15 primitive rules.  Side conditions that the proofs
+   Proved for all 15 primitive rules.  Side conditions that the proofs
    need and the kernel does not enforce on rule arguments are explicit
    hypotheses: [wfc] = the primitive constants "equals", "implies", "all" occur
    at instances of their declared types (theory.check_term enforces this for
    user input; the checker does not re-check rule arguments), and
-   [fx_occurs_svar fx = true] = the repaired occurs_var.
-   PARTIAL with respect to C01: substitution (Thm.substitution / Term.subst) is
-   decided by correspondence and finite-model search only. *)
+   [fx_occurs_svar fx = true] = the repaired occurs_var.  For substitution:
+   the three repairs of Term.subst / Thm.substitution (closed replacements,
+   typed var_inst, one type instantiation for the whole sequent) and an arity
+   discipline on the types that are matched (Type.match_incr zips argument
+   lists and truncates silently when their lengths differ). *)
 
 Theorem C01_assume_sound : forall DC IC A th, r_assume A = Some th -> valid DC IC th.
 Proof. exact sound_assume. Qed.
@@ -92,3 +94,30 @@ Theorem C01_forall_elim_sound : forall DC IC, Standard DC IC -> forall s th th',
   r_forall_elim s th = Some th' -> wt th' -> valid DC IC th'.
 Proof. exact sound_forall_elim. Qed.
 Print Assumptions C01_forall_elim_sound.
+
+(* Thm.substitution: instantiation of schematic (type) variables, and of free
+   variables through var_inst, by closed terms. *)
+Theorem C01_substitution_sound : forall DC IC, Standard DC IC -> forall fx,
+  fx_var_inst fx = true -> fx_inst_closed fx = true -> fx_subst_pass fx = true ->
+  forall ar I th th',
+  svar_types_wf ar th = true -> inst_types_wf ar I = true ->
+  valid DC IC th -> r_substitution fx I th = Some th' -> wt th' -> valid DC IC th'.
+Proof. exact sound_substitution. Qed.
+Print Assumptions C01_substitution_sound.
+
+(* non-vacuity: |- ?P x --> ?P x  with  ?P := %y::'b. y = y  (so '?a := 'b), all side
+   conditions hold and the rule produces a well-typed sequent *)
+Example C01_substitution_example :
+  let a := STVar "a" in let b := TVar "b" in
+  let P := SVar "P" (TFun a BoolT) in let x := Var "x" a in
+  let imp := Const "implies" (TFun BoolT (TFun BoolT BoolT)) in
+  let th := mkThm [] (Comb (Comb imp (Comb P x)) (Comb P x)) in
+  let u := Abs "y" b (Comb (Comb (Const "equals" (TFun b (TFun b BoolT))) (Bound 0)) (Bound 0)) in
+  let I := mkInst [("P", u)] [] [] [] in
+  let ar := fun n : string => if String.eqb n "fun" then 2 else 0 in
+  svar_types_wf ar th = true /\ inst_types_wf ar I = true /\
+  match r_substitution fixes_on I th with
+  | Some th' => check_thm_type th' = true /\ prop th' <> prop th
+  | None => False
+  end.
+Proof. vm_compute. repeat split; discriminate. Qed.
